@@ -302,7 +302,7 @@ func ApplyFault(t *Tree, siteIdx int, op string, r *mon.Rand) (out []byte, path 
 			return nil, path, false
 		}
 	case "tag-wrap":
-		tagged := refcbor.NTag(mon.Pick(r, uint64(0), 1, 2, 18, 24, 98, 55799, 1000), n)
+		tagged := refcbor.NTag(mon.Pick(r, uint64(0), 1, 2, 3, 16, 17, 18, 19, 24, 32, 37, 61, 96, 97, 98, 256, 55799, 1000, 65535, 4294967296), n)
 		replaceIn(s, c, tagged)
 	case "to-undefined":
 		delete(c.Emb, n)
